@@ -598,7 +598,7 @@ func (c12) Run(sc *Scenario) *Verdict {
 			got := map[string]bool{}
 			for _, q := range ex.Log.Reqs {
 				got[q.URL] = true
-				if !reach.Requested[q.URL] {
+				if !reach.Requested[q.URL] && !w.ReachableLoose(w.RootNode(), false).Requested[q.URL] {
 					return v.fail("unexpected-request", "order key %d: the loader was asked for %q, which no $ref of the input designates (expected %v)", k, q.URL, keysOf(reach.Requested))
 				}
 			}
